@@ -515,6 +515,38 @@ mod imp {
             let mut v = vec![S::Fn("apply1".into(), vec!["fz".into(), "az".into()], vec![S::Return(Some(E::Call("fz".into(), vec![E::Var("az".into())])))])];
             let n = g.r.range_i64(4, 10);
             for _ in 0..n { v.push(g.stmt()); }
+            // operands with a side effect on a variable the other operand reads, in both orders, inside functions:
+            // a closure assigning a captured local, and a function assigning a global
+            for _ in 0..g.r.below(3) {
+                let k = { g.fresh += 1; g.fresh };
+                let (fname, x, bump, r1, r2) = (format!("sfx{k}"), format!("loc{k}"), format!("bump{k}"), format!("ra{k}"), format!("rb{k}"));
+                let op1 = *g.r.pick(&["+", "-", "*"]);
+                let op2 = *g.r.pick(&["+", "-", "*"]);
+                let call = E::Call(bump.clone(), vec![]);
+                let bump_body = vec![S::Assign(x.clone(), *g.r.pick(&["=", "+=", "*="]), E::Bin(Box::new(E::Var(x.clone())), "+", Box::new(E::Int(g.r.below(20) + 1)))),
+                                     S::Return(Some(E::Int(100 + g.r.below(50))))];
+                let mut body = vec![S::Let(true, x.clone(), E::Int(g.r.below(9) + 1)),
+                                    S::Let(false, bump.clone(), E::Lambda(vec![], bump_body)),
+                                    S::Let(false, r1.clone(), E::Bin(Box::new(E::Var(x.clone())), op1, Box::new(call.clone()))),
+                                    S::Print(true, E::Var(r1)), S::Print(true, E::Var(x.clone())),
+                                    S::Let(false, r2.clone(), E::Bin(Box::new(call.clone()), op2, Box::new(E::Var(x.clone())))),
+                                    S::Print(true, E::Var(r2)), S::Print(true, E::Var(x.clone()))];
+                if g.r.chance(1, 2) { body.push(S::Print(true, E::Bin(Box::new(E::Var(x.clone())), "+", Box::new(E::Bin(Box::new(call.clone()), "*", Box::new(E::Var(x.clone()))))))); }
+                body.push(S::Return(Some(E::Var(x.clone()))));
+                v.push(S::Fn(fname.clone(), vec![], body));
+                v.push(S::Print(true, E::Call(fname, vec![])));
+                // the global variant
+                let (gv, setg, useg) = (format!("glob{k}"), format!("setg{k}"), format!("useg{k}"));
+                v.push(S::Let(true, gv.clone(), E::Int(g.r.below(9) + 1)));
+                v.push(S::Fn(setg.clone(), vec![], vec![S::Assign(gv.clone(), "=", E::Bin(Box::new(E::Var(gv.clone())), "+", Box::new(E::Int(10)))), S::Return(Some(E::Int(100)))]));
+                let scall = E::Call(setg.clone(), vec![]);
+                v.push(S::Fn(useg.clone(), vec![], vec![
+                    S::Print(true, E::Bin(Box::new(E::Var(gv.clone())), op1, Box::new(scall.clone()))),
+                    S::Print(true, E::Bin(Box::new(scall.clone()), op2, Box::new(E::Var(gv.clone())))),
+                    S::Return(Some(E::Var(gv.clone())))]));
+                v.push(S::Print(true, E::Call(useg, vec![])));
+                v.push(S::Print(true, E::Bin(Box::new(E::Var(gv.clone())), op2, Box::new(scall))));
+            }
             // make the final state observable
             for x in g.ints.clone() { v.push(S::Print(true, E::Var(x))); }
             v
